@@ -114,6 +114,7 @@ Lemma background_revalidate_nocrash q stored k f cc : NoCrash (background_revali
 Proof.
   unfold background_revalidate. apply round_trip_timed_nocrash; intros [|r] a b; [constructor|].
   constructor; intros own; destruct own; [|constructor].
+  destruct (_ && _); [constructor|].
   unfold get_refs_clean; constructor; intros ans.
   apply NoCrash_bind; [|intros; constructor].
   apply handle_validation_nocrash; cbn [rc_refs].
